@@ -19,18 +19,7 @@ pub fn main_with(find: &dyn Fn(&str) -> Option<PropDef>) {
     if cmd == "decode" {
         // fuzz artifact -> case file (same decoder as the fuzz targets): mvv decode <target> <artifact> <out.json>
         let data = std::fs::read(args.get(3).cloned().unwrap_or_default()).unwrap_or_default();
-        let case = match id {
-            "fz_tess" => crate::fuzzdec::decode(&data, 10, true),
-            "fz_clip" => crate::fuzzdec::decode(&data, 12, false),
-            "fz_nn" => crate::fuzzdec::decode(&data, 40, false),
-            "fz_insphere" => crate::fuzzdec::decode_tuple(&data).map(|t| {
-                let mut c = crate::case::Case::default();
-                c.gens = vec![[0.5; 3]];
-                c.aux_i = t;
-                c
-            }),
-            _ => None,
-        };
+        let case = crate::fuzzdec::decode_target(id, &data);
         match case {
             Some(c) => {
                 let out = args.get(4).cloned().unwrap_or("/dev/stdout".into());
